@@ -44,6 +44,8 @@ func main() {
 	switch a.engine {
 	case "coord":
 		res = runCoord(a)
+	case "k8s":
+		res = runK8s(a)
 	default:
 		fmt.Fprintln(os.Stderr, "unknown engine", a.engine)
 		os.Exit(2)
